@@ -179,7 +179,7 @@ func uniqueGroup(t *rapid.T, o FormulaOpts, pol int) *oracle.F {
 // oddNames are legal variable names for the Go API (bf.Var takes any string) that are not identifiers: punctuation,
 // blanks, commas, percent signs, and texts that look like the printed form of a formula.
 var oddNames = []string{"x[1,2]", "a, b", "not(a)", "and(a, b)", "%d", "load%", "50%%", "a b", "x.y", "p->q", "a, b, c",
-	"or(a, b)", "~a", "-1", "0", "12", "a=b", "%s", "c d", "é", "unique(a, b)", "a", "b", "c"}
+	"or(a, b)", "~a", "-1", "0", "12", "a=b", "%s", "c d", "é", "unique(a, b)", "a", "b", "c", ""}
 
 // Names returns k distinct variable names: v0..v(k-1) in three cases out of four, otherwise a drawn selection of
 // names that are not identifiers (completed with v_i).
